@@ -564,9 +564,13 @@ func runLife(w *writer, c *lifeCase) {
 	// let everything still blocked at a gate run to its end
 	lw.openAll()
 	if sdStartedFlag.Load() {
+		sdPatience := 2 * time.Second // (the contexts given to Shutdown are 600 ms at most, 60 ms + 2 s with a retry)
+		if c.SdRetry {
+			sdPatience = 5 * time.Second
+		}
 		select {
 		case <-sdDone:
-		case <-time.After(2 * time.Second):
+		case <-time.After(sdPatience):
 			lw.log(Ev{"ev": "shutdown.stuck"})
 		}
 	}
